@@ -29,6 +29,7 @@ var c07SSO = mkSpace("authn", []fieldDim{
 	{"B64Wrap", []string{"", "76", "64crlf"}},
 	{"Flate", []string{"", "stored", "huffman", "fast", "flushed", "chunks"}},
 	{"CType", []string{"", "charset", "mixed-case", "charset-quoted"}},
+	{"HTTP", world.HTTPShapes},
 	{"Optional", []string{"", "all"}},
 	{"Frac", []string{"", "0", "3", "9"}},
 	{"Relay", []string{"", "none", "spacey"}},
@@ -59,6 +60,7 @@ var c07SubDims = []string{"Sign", "KeyInfo", "CertText", "SignImpl", "Pct", "Spa
 
 // the lexical / wire-level sub-space, also explored as a full product (crossed with transport, signature kind and prefix style)
 var c07LexDims = []string{"Lex", "Transport", "Sign", "B64Wrap", "Flate", "CType", "Prefix"}
+var c07HTTPDims = []string{"HTTP", "Transport", "Sign", "IssuerCfg", "Host", "SSOEp"}
 
 var spaceyRelay = "a b+c%41&d=e/f?g~h"
 
@@ -148,6 +150,7 @@ var c07Logout = mkSpace("logout", []fieldDim{
 	{"Decl", []string{"", "yes"}},
 	{"Lex", lexVals},
 	{"Wire", []string{"", "b64-76", "b64-64crlf", "ctype-charset", "flate-stored", "flate-flushed", "flate-chunks"}},
+	{"HTTP", world.HTTPShapes},
 	{"Session", []string{"", "two"}},
 	{"Relay", []string{"", "none"}},
 	{"NOOA", []string{"", "+1us", "+1y"}},
@@ -188,6 +191,8 @@ var c07AQ = mkSpace("attribute-query", []fieldDim{
 	{"Prefix", []string{"", "default", "odd"}},
 	{"Decl", []string{"", "yes"}},
 	{"Lex", lexVals},
+	{"HTTP", world.HTTPShapes},
+	{"CType", []string{"", "text-xml-bare", "soap12", "soapaction"}},
 	{"Dest", []string{"", "absent"}},
 	{"Subject", []string{"", "bob"}},
 	{"Attrs", []string{"", "email", "email+username", "custom", "unknown", "email+email"}},
@@ -451,21 +456,23 @@ func runC07(ctx Ctx) int {
 		addS(vec)
 		return true
 	})
-	lex := &devx.Space{Name: "lex"}
-	var lidx []int
-	for _, n := range c07LexDims {
-		i := c07SSO.Dim(n)
-		lidx = append(lidx, i)
-		lex.Dims = append(lex.Dims, c07SSO.Dims[i])
-	}
-	lex.EnumFull(func(sv []int) bool {
-		vec := make([]int, len(c07SSO.Dims))
-		for j, i := range lidx {
-			vec[i] = sv[j]
+	for _, names := range [][]string{c07LexDims, c07HTTPDims} {
+		lex := &devx.Space{Name: "lex"}
+		var lidx []int
+		for _, n := range names {
+			i := c07SSO.Dim(n)
+			lidx = append(lidx, i)
+			lex.Dims = append(lex.Dims, c07SSO.Dims[i])
 		}
-		addS(vec)
-		return true
-	})
+		lex.EnumFull(func(sv []int) bool {
+			vec := make([]int, len(c07SSO.Dims))
+			for j, i := range lidx {
+				vec[i] = sv[j]
+			}
+			addS(vec)
+			return true
+		})
+	}
 	report := func(v c07Verdict, site string, labels []string, rp c07Replay) {
 		run.Evaluations.Add(1)
 		run.Outcome(v.Class)
@@ -514,7 +521,7 @@ func runC07(ctx Ctx) int {
 	run.Sample(sItems[len(sItems)/2].p)
 	run.Sample(lItems[len(lItems)/2].p)
 	run.Sample(aItems[len(aItems)/2].p)
-	finishCapped(run, c1 && c2 && c3, fmt.Sprintf("AuthnRequest: %d shapes (k<=%d over %d dims + full products of the %d signing and 7 lexical / wire-level sub-space dims); LogoutRequest: %d (k<=3); AttributeQuery: %d (k<=3)", len(sItems), k, len(c07SSO.Dims), len(c07SubDims), len(lItems), len(aItems)))
+	finishCapped(run, c1 && c2 && c3, fmt.Sprintf("AuthnRequest: %d shapes (k<=%d over %d dims + full products of the %d signing, 7 lexical / wire-level and 6 HTTP-shape sub-space dims); LogoutRequest: %d (k<=3); AttributeQuery: %d (k<=3)", len(sItems), k, len(c07SSO.Dims), len(c07SubDims), len(lItems), len(aItems)))
 	return run.Finish()
 }
 
